@@ -116,9 +116,7 @@ Proof. vm_compute. repeat split; reflexivity. Qed.
 Lemma env_start_rule_shape s env : safe_schema s env = true -> env = true ->
   exists x, env_start_rule s = mkRule n_env_start [[ILit x]].
 Proof.
-  intros H ->. destruct (safe_schema_parts _ _ H) as [_ _ _ _ Hsn _ _]. apply andb_true_iff in Hsn as [_ Hup].
-  cbn [negb orb] in Hup. destruct (env_start_line_rule s (lit_plain_plainc _ Hup)) as [x Ex].
-  exists x. unfold env_start_rule, rule_of_line. rewrite Ex. reflexivity.
+  intros _ _. eexists. unfold env_start_rule, rule_of_line. rewrite env_start_line_rule. reflexivity.
 Qed.
 
 Lemma grammar_of_env_rules s env : safe_schema s env = true -> exists x,
@@ -372,6 +370,35 @@ Qed.
 Theorem compile_wf_src s env :
   safe_schema s env = true -> regex_src_nul_free s = true -> wf_text (compile_schema s env) = true.
 Proof. intros H Hz. apply compile_wf_nul_free; [exact H|apply regex_src_nul_free_sound; exact Hz]. Qed.
+
+(* ---- repo commit 481c8b3: the safe class grew ------------------------------------------------------------------ *)
+(* every schema of the pre-fix class (field names / upper-cased schema name free of quote and backslash) is in the
+   class of this development ... *)
+Theorem safe_class_grew s env : safe_schema_raw_names s env = true -> safe_schema s env = true.
+Proof.
+  unfold safe_schema_raw_names, safe_schema, schema_clauses_raw_names, schema_clauses.
+  rewrite pin_field_name_escaped, pin_schema_name_escaped. cbn [name_lit_ok].
+  intro H. apply N.eqb_eq in H.
+  repeat (apply N.eq_add_0 in H; let H' := fresh "B" in destruct H as [H H']).
+  apply bit_zero, negb_false_iff in B2. apply bit_zero, negb_false_iff in B1.
+  rewrite H, B4, B3, B0, B.
+  rewrite (forallb_impl _ (fun f => no_nul (fd_name f)) _ (fun f => lit_plain_no_nul (fd_name f)) B2).
+  apply andb_true_iff in B1 as [C1 C2]. rewrite C1.
+  destruct env; cbn [negb orb andb] in *; [rewrite (lit_plain_no_nul _ C2)|]; reflexivity.
+Qed.
+
+(* ... strictly: the regression schema (name a dq b backslash c, field dq q r dq) is in the new class only *)
+Example safe_class_grew_strictly :
+  safe_schema regress_schema true = true /\ safe_schema_raw_names regress_schema true = false
+  /\ schema_clauses_raw_names regress_schema true = 24.
+Proof. vm_compute. repeat split; reflexivity. Qed.
+
+(* the theorem applies to the regression schema (hypotheses by computation, conclusion by the theorem) *)
+Example regress_by_theorem :
+  wf_text (compile_schema regress_schema true) = true /\ wf_text (compile_schema regress_schema false) = true.
+Proof.
+  split; apply compile_wf_no_regex; vm_compute; reflexivity.
+Qed.
 
 (* ---- non-vacuity --------------------------------------------------------------------------------------------- *)
 (* six fields of different kinds (ENUM with a quote and a backslash, REGEX, CONST, TYPE NUMBER, DATE, no chain),
